@@ -105,6 +105,24 @@ def rand_format(rnd):
 def expand(job):
     rnd = random.Random(job["seed"])
     k = job["kind"]
+    if k == "alldays":      # every day of a year, rotating through the three representations: %j %m %d against the calendar
+        from harness import refcal as R
+        from harness.common import tp_rec
+        sp, y = job["mode"], job["y"]
+        m = MEANING[sp]
+        n0 = R.year_start(m, y)
+        toks = [{"d": "Y", "c": 0}, {"d": "lit", "c": 45}, {"d": "j", "c": 0}, {"d": "lit", "c": 32}, {"d": "F", "c": 0}, {"d": "lit", "c": 84},
+                {"d": "X", "c": 0}, {"d": "z", "c": 0}]
+        for i in range(R.diy(m, y)):
+            rep = ["cal", "ord", "week"][(i + job["seed"]) % 3]
+            yy, a_, b_ = R.date_of(m, rep, n0 + i)
+            if not (1 <= yy <= 9998):
+                continue
+            inv = i % 4 == 1      # the format above names the date twice (strptime refuses that): an invertible one every fourth day
+            tk = [toks[0], toks[1], toks[2], toks[5], toks[6], toks[7]] if inv else toks
+            yield {"mode": sp, "p": tp_rec(rep, yy, a_, b_, sod=rnd.choice([0, 43200, 86399]), zh=rnd.choice([0, 5, -3]), zm=0),
+                   "toks": tk, "az": [0, 0], "strp": inv}
+        return
     for i in range(job["n"]):
         sp = gen.spelling(rnd)
         m = MEANING[sp]
@@ -140,7 +158,11 @@ def jobs(tier, seed):
             out.append({"kind": "random", "n": 900, "seed": seed * 100 + j})
         for j in range(8):
             out.append({"kind": "years", "lo": 1 + j * 1250, "hi": min(9999, 1 + (j + 1) * 1250), "n": 1250, "seed": seed * 100 + 50 + j})
+        for j, (sp, y) in enumerate([("gregorian", 2020), ("gregorian", 2019), ("gregorian", 1900), ("360day", 2020), ("365_day", 2020), ("366day", 2019)]):
+            out.append({"kind": "alldays", "mode": sp, "y": y, "seed": seed + j, "n": 0})
     else:
+        for j, (sp, y) in enumerate([(m_, y_) for m_ in ("gregorian", "360day", "365day", "366day", "360_day") for y_ in (2020, 2019, 2000, 1900, 4, 2100)]):
+            out.append({"kind": "alldays", "mode": sp, "y": y, "seed": seed + j, "n": 0})
         for j in range(24):
             out.append({"kind": "random", "n": 15000, "seed": seed * 1000 + j})
         for r in range(3):
